@@ -472,12 +472,11 @@ theorem Keeps.appBindReq (e : EP) (req : Nat) (bt : BindType) (host : Bytes) (po
   split
   · exact Keeps.refl e
   · rename_i fid rng' fb' hd
-    have s : Keeps e { e with rng := rng', fallback := fb', flows := insert e.flows fid (.bindRequested req) } :=
-      (Keeps.insertPending e fid (.bindRequested req) (by intro i hc; cases hc)).trans (Keeps.same rfl rfl)
-    simp only
     split
-    · exact s
-    · exact s.trans (Keeps.enqFrame _ _)
+    · exact Keeps.same rfl rfl
+    · have s : Keeps e { e with rng := rng', fallback := fb', flows := insert e.flows fid (.bindRequested req) } :=
+        (Keeps.insertPending e fid (.bindRequested req) (by intro i hc; cases hc)).trans (Keeps.same rfl rfl)
+      exact s.trans (Keeps.enqFrame _ _)
 
 theorem Keeps.appBindNext (e : EP) : Keeps e (appBindNext e).1 := by
   unfold Mux.appBindNext
